@@ -1,6 +1,7 @@
 package main
 
 import (
+	"bytes"
 	"fmt"
 	"go/types"
 	"math/big"
@@ -904,6 +905,23 @@ func init() {
 			r = e.ctx.And(r, e.eqVal(x[i], y[i]))
 		}
 		return r
+	}
+	I["bytes.ReplaceAll"] = func(e *Exec, th *Thread, fn *ssa.Function, a []Value) Value {
+		s, ok1 := e.concreteBytes(a[0])
+		o, ok2 := e.concreteBytes(a[1])
+		n, ok3 := e.concreteBytes(a[2])
+		if !ok1 || !ok2 || !ok3 {
+			panic(pathAbort{"error", "bytes.ReplaceAll on symbolic content"})
+		}
+		return e.bytesValue(bytes.ReplaceAll(s, o, n))
+	}
+	I["bytes.Contains"] = func(e *Exec, th *Thread, fn *ssa.Function, a []Value) Value {
+		s, ok1 := e.concreteBytes(a[0])
+		o, ok2 := e.concreteBytes(a[1])
+		if !ok1 || !ok2 {
+			panic(pathAbort{"error", "bytes.Contains on symbolic content"})
+		}
+		return e.ctx.Bool(bytes.Contains(s, o))
 	}
 	I["encoding/hex.EncodeToString"] = func(e *Exec, th *Thread, fn *ssa.Function, a []Value) Value {
 		return e.sprintf(th, "%x", []Value{a[0]})
